@@ -288,6 +288,10 @@ func Evatra(l *WaterSharedVars, g *GlobalVarsMain, hPath *HFilePath, zeit int) {
 			}
 			VERDU[g.TAG.Index] = g.ET0 * g.FKC * 0.1
 		}
+		// potential ET is never negative (Turc-Wendling below -22 °C, missing-value sentinel in the ET0 column)
+		if VERDU[g.TAG.Index] < 0 {
+			VERDU[g.TAG.Index] = 0
+		}
 		// ! -- Begrenzung Verdunstung auf 6.5 mm/Tag --
 		if VERDU[g.TAG.Index] > 0.65 {
 			VERDU[g.TAG.Index] = 0.65
@@ -456,6 +460,10 @@ func Evatra(l *WaterSharedVars, g *GlobalVarsMain, hPath *HFilePath, zeit int) {
 				g.ET0 = 0
 			}
 			VERDU[g.TAG.Index] = g.ET0 * g.FKC * 0.1
+		}
+		// potential ET is never negative (Turc-Wendling below -22 °C, missing-value sentinel in the ET0 column)
+		if VERDU[g.TAG.Index] < 0 {
+			VERDU[g.TAG.Index] = 0
 		}
 		if VERDU[g.TAG.Index] > 0.6 {
 			VERDU[g.TAG.Index] = 0.6
